@@ -17,7 +17,10 @@ import Mathlib.Tactic.Ring
 import Mathlib.Tactic.Linarith
 import Mathlib.Tactic.FieldSimp
 import Mathlib.Tactic.NormNum
+import Mathlib.Tactic.Positivity
 import Mathlib.Tactic.LinearCombination
+import Mathlib.Tactic.IntervalCases
+import Mathlib.Algebra.Order.Field.Rat
 import Mathlib.Algebra.Order.Field.Basic
 import Mathlib.Algebra.BigOperators.Group.Finset.Basic
 import Mathlib.Algebra.BigOperators.Ring.Finset
@@ -408,4 +411,277 @@ theorem gd_of_euler_symm (X : Nat → α) (P : Nat → Nat → α)
 
 end darken
 
+section hess
+variable {α : Type} [Field α]
+
+/-- **the assembly in `hessian()` mirrors every off-diagonal block**: the bordered Hessian is
+symmetric as soon as the site-fraction block `d2g` (pycalphad's `formulahess`) is. -/
+theorem hessAsm_symm (p k n : Nat) (d2g : Nat → Nat → α) (dg mu : Nat → α)
+    (jac dxdy : Nat → Nat → α) (moleA : Nat → α)
+    (hd : ∀ i j, i < p → j < p → d2g i j = d2g j i) (i j : Nat) :
+    hessAsm p k n d2g dg mu jac dxdy moleA i j = hessAsm p k n d2g dg mu jac dxdy moleA j i := by
+  unfold hessAsm
+  simp only []
+  split_ifs <;> first | rfl | omega | (rw [hd _ _ ‹_› ‹_›])
+
+/-- K is a right inverse of H on indices below `size` -/
+def IsInvOn (size : Nat) (H K : Nat → Nat → α) : Prop :=
+  ∀ i, i < size → ∀ j, j < size → ∑ k ∈ range size, H i k * K k j = if i = j then 1 else 0
+
+/-- **the inverse of a symmetric matrix is symmetric** (index-function form; via Mathlib `Matrix`) -/
+theorem inv_symm (size : Nat) (H K : Nat → Nat → α)
+    (hH : ∀ i j, i < size → j < size → H i j = H j i) (hinv : IsInvOn size H K) :
+    ∀ i j, i < size → j < size → K i j = K j i := by
+  let Hm : Matrix (Fin size) (Fin size) α := fun i j => H i j
+  let Km : Matrix (Fin size) (Fin size) α := fun i j => K i j
+  have hHK : Hm * Km = 1 := by
+    ext i j
+    rw [Matrix.mul_apply, Matrix.one_apply]
+    have := hinv i i.2 j j.2
+    rw [Finset.sum_range] at this
+    simp only [Hm, Km]
+    rw [this]
+    simp [Fin.ext_iff]
+  have hHt : Hm.transpose = Hm := by
+    ext i j; simp only [Matrix.transpose_apply, Hm]; exact hH j i j.2 i.2
+  have hKt : Km.transpose = Km := by
+    calc Km.transpose = Km.transpose * (Hm * Km) := by rw [hHK, Matrix.mul_one]
+      _ = (Km.transpose * Hm.transpose) * Km := by rw [hHt, Matrix.mul_assoc]
+      _ = (Hm * Km).transpose * Km := by rw [Matrix.transpose_mul]
+      _ = Km := by rw [hHK, Matrix.transpose_one, Matrix.one_mul]
+  intro i j hi hj
+  have := congrFun (congrFun hKt ⟨j, hj⟩) ⟨i, hi⟩
+  rw [Matrix.transpose_apply] at this
+  exact this
+
+/-- **symmetry of dμ/dx, end to end**: if pycalphad's site-fraction Hessian block is symmetric and K
+is the inverse of the bordered Hessian `hessian()` assembles, then `dMudX` is symmetric. -/
+theorem dMudX_symm_of_hessian (p k n ref : Nat) (d2g : Nat → Nat → α) (dg mu : Nat → α)
+    (jac dxdy : Nat → Nat → α) (moleA : Nat → α) (K : Nat → Nat → α) (c' c : Nat)
+    (hd : ∀ i j, i < p → j < p → d2g i j = d2g j i)
+    (hinv : IsInvOn (p + k + 1 + n) (hessAsm p k n d2g dg mu jac dxdy moleA) K)
+    (href : ref < n) (hc : c + 1 < n) (hc' : c' + 1 < n) :
+    dMudX (p + k + 1) ref (totalddx (p + k + 1 + n) (p + k + 1) ref (some K)) c' c
+      = dMudX (p + k + 1) ref (totalddx (p + k + 1 + n) (p + k + 1) ref (some K)) c c' := by
+  have hs := skip_lt n ref c hc
+  have hs' := skip_lt n ref c' hc'
+  have hK := inv_symm (p + k + 1 + n) _ K
+    (fun i j _ _ => hessAsm_symm p k n d2g dg mu jac dxdy moleA hd i j) hinv
+  exact dMudX_symm _ _ ref K c' c (by omega) (by omega) (by omega)
+    (fun i j _ hi _ hj => hK i j hi hj)
+
+end hess
+
+/-! ### Gibbs–Duhem for the code's partial-derivative matrix, from stationarity -/
+
+section gd
+variable {α : Type} [Field α]
+variable (p k n : Nat) (d2g : Nat → Nat → α) (dg mu : Nat → α) (jac dxdy : Nat → Nat → α)
+  (moleA : Nat → α)
+
+theorem hess_rowN_y (c : Nat) (hc : c < p) :
+    hessAsm p k n d2g dg mu jac dxdy moleA p c = dgmu n dg mu dxdy c := by
+  unfold hessAsm; simp only []
+  split_ifs <;> first | rfl | omega
+
+theorem hess_rowN_mid (t : Nat) (ht : t < k + 1) :
+    hessAsm p k n d2g dg mu jac dxdy moleA p (p + t) = 0 := by
+  unfold hessAsm; simp only []
+  split_ifs <;> first | rfl | omega
+
+theorem hess_rowN_mu (A : Nat) (hA : A < n) :
+    hessAsm p k n d2g dg mu jac dxdy moleA p (p + (k + 1) + A) = - moleA A := by
+  have e : p + (k + 1) + A - (p + k + 1) = A := by omega
+  unfold hessAsm; simp only []
+  split_ifs <;> first | omega | (rw [e])
+
+theorem hess_rowL_y (s : Nat) (hs : s < k) (c : Nat) (hc : c < p) :
+    hessAsm p k n d2g dg mu jac dxdy moleA (p + 1 + s) c = - jac s c := by
+  have e : p + 1 + s - (p + 1) = s := by omega
+  unfold hessAsm; simp only []
+  split_ifs <;> first | omega | (rw [e])
+
+theorem hess_rowL_rest (s : Nat) (hs : s < k) (j : Nat) (hj : p ≤ j) :
+    hessAsm p k n d2g dg mu jac dxdy moleA (p + 1 + s) j = 0 := by
+  unfold hessAsm; simp only []
+  split_ifs <;> first | rfl | omega
+
+/-- **Gibbs–Duhem from the code's own bordered system.**  Let K be the inverse of the Hessian
+`hessian()` assembles, and let the composition set be stationary: the phase-amount column
+`dG/dy_i − Σ_A μ_A·dM_A/dy_i` is a combination of the internal-constraint gradients (Lagrange
+multipliers `lam`), which is the first-order equilibrium condition pycalphad's solver converges to.
+Then every chemical-potential column B of K satisfies Σ_A moleA_A · K[μ_A, μ_B] = 0, i.e. the
+partial-derivative matrix `partialdMudX = −K[μ,μ]` obeys Gibbs–Duhem with the formula-unit mole
+numbers as weights. -/
+theorem gibbs_duhem_of_stationary (K : Nat → Nat → α) (lam : Nat → α)
+    (hinv : IsInvOn (p + k + 1 + n) (hessAsm p k n d2g dg mu jac dxdy moleA) K)
+    (hstat : ∀ i, i < p → dgmu n dg mu dxdy i = ∑ s ∈ range k, lam s * jac s i)
+    (B : Nat) (hB : B < n) :
+    ∑ A ∈ range n, moleA A * K (p + (k + 1) + A) (p + (k + 1) + B) = 0 := by
+  have e : p + k + 1 + n = p + (k + 1) + n := by omega
+  rw [e] at hinv
+  -- rows of the Lagrange multipliers
+  have hL : ∀ s, s < k → ∑ c ∈ range p, jac s c * K c (p + (k + 1) + B) = 0 := by
+    intro s hs
+    have h := hinv (p + 1 + s) (by omega) (p + (k + 1) + B) (by omega)
+    rw [if_neg (by omega), sum_range_add, sum_range_add] at h
+    have h1 : ∀ c ∈ range p, hessAsm p k n d2g dg mu jac dxdy moleA (p + 1 + s) c * K c (p + (k + 1) + B)
+        = - (jac s c * K c (p + (k + 1) + B)) := by
+      intro c hc; rw [hess_rowL_y p k n d2g dg mu jac dxdy moleA s hs c (mem_range.mp hc)]; ring
+    have h2 : ∀ t ∈ range (k + 1), hessAsm p k n d2g dg mu jac dxdy moleA (p + 1 + s) (p + t) * K (p + t) (p + (k + 1) + B) = 0 := by
+      intro t _; rw [hess_rowL_rest p k n d2g dg mu jac dxdy moleA s hs _ (by omega)]; ring
+    have h3 : ∀ A ∈ range n, hessAsm p k n d2g dg mu jac dxdy moleA (p + 1 + s) (p + (k + 1) + A) * K (p + (k + 1) + A) (p + (k + 1) + B) = 0 := by
+      intro A _; rw [hess_rowL_rest p k n d2g dg mu jac dxdy moleA s hs _ (by omega)]; ring
+    rw [sum_congr rfl h1, sum_congr rfl h2, sum_congr rfl h3, sum_neg_distrib] at h
+    simpa using h
+  -- row of the phase amount
+  have h := hinv p (by omega) (p + (k + 1) + B) (by omega)
+  rw [if_neg (by omega), sum_range_add, sum_range_add] at h
+  have h1 : ∀ c ∈ range p, hessAsm p k n d2g dg mu jac dxdy moleA p c * K c (p + (k + 1) + B)
+      = ∑ s ∈ range k, lam s * (jac s c * K c (p + (k + 1) + B)) := by
+    intro c hc
+    rw [hess_rowN_y p k n d2g dg mu jac dxdy moleA c (mem_range.mp hc), hstat c (mem_range.mp hc), sum_mul]
+    apply sum_congr rfl; intro s _; ring
+  have h2 : ∀ t ∈ range (k + 1), hessAsm p k n d2g dg mu jac dxdy moleA p (p + t) * K (p + t) (p + (k + 1) + B) = 0 := by
+    intro t ht; rw [hess_rowN_mid p k n d2g dg mu jac dxdy moleA t (mem_range.mp ht)]; ring
+  have h3 : ∀ A ∈ range n, hessAsm p k n d2g dg mu jac dxdy moleA p (p + (k + 1) + A) * K (p + (k + 1) + A) (p + (k + 1) + B)
+      = - (moleA A * K (p + (k + 1) + A) (p + (k + 1) + B)) := by
+    intro A hA; rw [hess_rowN_mu p k n d2g dg mu jac dxdy moleA A (mem_range.mp hA)]; ring
+  rw [sum_congr rfl h1, sum_congr rfl h2, sum_congr rfl h3, sum_neg_distrib, sum_comm] at h
+  have hz : ∑ s ∈ range k, ∑ c ∈ range p, lam s * (jac s c * K c (p + (k + 1) + B)) = 0 := by
+    apply sum_eq_zero; intro s hs
+    rw [← mul_sum, hL s (mem_range.mp hs), mul_zero]
+  rw [hz] at h
+  simpa using h
+
+/-- the same, stated for `partialdMudX` and the mole fractions X = moleA·f -/
+theorem partial_gibbs_duhem (K : Nat → Nat → α) (lam : Nat → α) (X : Nat → α) (f : α)
+    (hinv : IsInvOn (p + k + 1 + n) (hessAsm p k n d2g dg mu jac dxdy moleA) K)
+    (hstat : ∀ i, i < p → dgmu n dg mu dxdy i = ∑ s ∈ range k, lam s * jac s i)
+    (hX : ∀ A, A < n → X A = moleA A * f)
+    (B : Nat) (hB : B < n) :
+    ∑ A ∈ range n,
+      X A * partialdMudX (p + k + 1) (partialddx (p + k + 1 + n) (p + k + 1) (some K)) A B = 0 := by
+  have h := gibbs_duhem_of_stationary p k n d2g dg mu jac dxdy moleA K lam hinv hstat B hB
+  have : ∀ A ∈ range n,
+      X A * partialdMudX (p + k + 1) (partialddx (p + k + 1 + n) (p + k + 1) (some K)) A B
+        = - f * (moleA A * K (p + (k + 1) + A) (p + (k + 1) + B)) := by
+    intro A hA
+    rw [partialdMudX_eq _ _ K A B (by omega), hX A (mem_range.mp hA)]
+    have e1 : p + k + 1 + A = p + (k + 1) + A := by omega
+    have e2 : p + k + 1 + B = p + (k + 1) + B := by omega
+    rw [e1, e2]; ring
+  rw [sum_congr rfl this, ← mul_sum, h, mul_zero]
+
+end gd
+
+/-! ### Darken, end to end from the code's bordered system -/
+
+section darken2
+variable {α : Type} [Field α]
+
+/-- **Darken for the whole `interdiffusivity` pipeline (binary substitutional, reference = element 0).**
+Inputs: K = inverse of the Hessian `hessian()` assembles for a stationary composition set,
+mole fractions X = moleA·f summing to one, any mobilities.  The model of `interdiffusivity`
+(mobility matrix × partialdMudX, reference column subtracted) equals the Darken combination of the
+tracer diffusivities R·T·M with the thermodynamic factor built from what `dMudX` returns. -/
+theorem darken_pipeline_ref0 (p k : Nat) (d2g : Nat → Nat → α) (dg mu : Nat → α)
+    (jac dxdy : Nat → Nat → α) (moleA : Nat → α) (K : Nat → Nat → α) (lam : Nat → α)
+    (vacPoor : Bool) (X M yVa : Nat → α) (f Rg T : α)
+    (hinv : IsInvOn (p + k + 1 + 2) (hessAsm p k 2 d2g dg mu jac dxdy moleA) K)
+    (hstat : ∀ i, i < p → dgmu 2 dg mu dxdy i = ∑ s ∈ range k, lam s * jac s i)
+    (hXm : ∀ A, A < 2 → X A = moleA A * f) (hX : X 0 + X 1 = 1) (hRT : Rg * T ≠ 0) :
+    interdiffX (p + k + 1 + 2) (p + k + 1) 2 0 (fun _ => false) vacPoor X M yVa (some K) 0 0
+      = darken (X 1) (X 0) (Rg * T * M 1) (Rg * T * M 0)
+          (thermoFactor (X 1) (X 0)
+            (dMudX (p + k + 1) 0 (totalddx (p + k + 1 + 2) (p + k + 1) 0 (some K)) 0 0) Rg T) := by
+  have g0 := partial_gibbs_duhem p k 2 d2g dg mu jac dxdy moleA K lam X f hinv hstat hXm 0 (by omega)
+  have g1 := partial_gibbs_duhem p k 2 d2g dg mu jac dxdy moleA K lam X f hinv hstat hXm 1 (by omega)
+  simp only [sum_range_succ, sum_range_zero, zero_add] at g0 g1
+  have hd := dMudX_from_partial (p + k + 1 + 2) (p + k + 1) 2 0 K 0 0 (by omega) (by omega) (by omega)
+  simp only [skip, Nat.lt_irrefl, if_false, Nat.zero_add] at hd
+  rw [hd]
+  unfold interdiffX
+  exact darken_ref0 vacPoor X M yVa _ Rg T hX hRT g0 g1
+
+/-- the same with element 1 as the reference -/
+theorem darken_pipeline_ref1 (p k : Nat) (d2g : Nat → Nat → α) (dg mu : Nat → α)
+    (jac dxdy : Nat → Nat → α) (moleA : Nat → α) (K : Nat → Nat → α) (lam : Nat → α)
+    (vacPoor : Bool) (X M yVa : Nat → α) (f Rg T : α)
+    (hinv : IsInvOn (p + k + 1 + 2) (hessAsm p k 2 d2g dg mu jac dxdy moleA) K)
+    (hstat : ∀ i, i < p → dgmu 2 dg mu dxdy i = ∑ s ∈ range k, lam s * jac s i)
+    (hXm : ∀ A, A < 2 → X A = moleA A * f) (hX : X 0 + X 1 = 1) (hRT : Rg * T ≠ 0) :
+    interdiffX (p + k + 1 + 2) (p + k + 1) 2 1 (fun _ => false) vacPoor X M yVa (some K) 0 0
+      = darken (X 0) (X 1) (Rg * T * M 0) (Rg * T * M 1)
+          (thermoFactor (X 0) (X 1)
+            (dMudX (p + k + 1) 1 (totalddx (p + k + 1 + 2) (p + k + 1) 1 (some K)) 0 0) Rg T) := by
+  have g0 := partial_gibbs_duhem p k 2 d2g dg mu jac dxdy moleA K lam X f hinv hstat hXm 0 (by omega)
+  have g1 := partial_gibbs_duhem p k 2 d2g dg mu jac dxdy moleA K lam X f hinv hstat hXm 1 (by omega)
+  simp only [sum_range_succ, sum_range_zero, zero_add] at g0 g1
+  have hd := dMudX_from_partial (p + k + 1 + 2) (p + k + 1) 2 1 K 0 0 (by omega) (by omega) (by omega)
+  simp only [skip, Nat.zero_lt_one, if_true] at hd
+  rw [hd]
+  unfold interdiffX
+  exact darken_ref1 vacPoor X M yVa _ Rg T hX hRT g0 g1
+
+end darken2
+
+/-! ### sign of the binary interdiffusivity -/
+
+section darkenpos
+variable {α : Type} [Field α] [LinearOrder α] [IsStrictOrderedRing α]
+
+/-- **binary positivity reduced to its physical inputs**: the Darken combination is positive when both
+mole fractions, both tracer diffusivities, the curvature G'' and R·T are positive.  With
+`darken_pipeline_ref0/1` this makes the sign of the code's binary interdiffusivity a consequence of
+the signs of the mobilities and of `dMudX` (which are monitored facts about the database). -/
+theorem darken_pos (xk xR Dk DR G2 Rg T : α) (hxk : 0 < xk) (hxR : 0 < xR) (hDk : 0 < Dk)
+    (hDR : 0 < DR) (hG : 0 < G2) (hRg : 0 < Rg) (hT : 0 < T) :
+    0 < darken xk xR Dk DR (thermoFactor xk xR G2 Rg T) := by
+  unfold darken thermoFactor
+  have h1 : 0 < xR * Dk + xk * DR := by positivity
+  have h2 : 0 < xk * xR * G2 / (Rg * T) := by positivity
+  exact mul_pos h1 h2
+
+end darkenpos
+
+/-! ### non-vacuity: concrete data meeting the hypothesis sets -/
+
+section examples
+
+/-- a binary one-sublattice phase: site fractions (1/4, 3/4), one internal constraint -/
+def exD2g : Nat → Nat → ℚ := fun i j => match i, j with | 0, 0 => 5 | 0, 1 => 1 | 1, 0 => 1 | 1, 1 => 3 | _, _ => 0
+def exDg : Nat → ℚ := fun i => match i with | 0 => 1 | 1 => 2 | _ => 0
+def exMu : Nat → ℚ := fun i => match i with | 0 => -1 | _ => 0
+def exJac : Nat → Nat → ℚ := fun s i => if s = 0 ∧ i < 2 then 1 else 0
+def exDxdy : Nat → Nat → ℚ := fun A i => if A = i ∧ i < 2 then 1 else 0
+def exMole : Nat → ℚ := fun A => match A with | 0 => 1/4 | 1 => 3/4 | _ => 0
+/-- the exact inverse of `hessAsm 2 1 2 exD2g …` -/
+def exK : Nat → Nat → ℚ := fun i j => match i, j with
+  | 0, 3 => -1/4 | 0, 4 => -3/4 | 0, 5 => 1/4
+  | 1, 3 => -3/4 | 1, 4 => 3/4 | 1, 5 => -1/4
+  | 2, 3 => 1 | 2, 4 => -1 | 2, 5 => -1
+  | 3, 0 => -1/4 | 3, 1 => -3/4 | 3, 2 => 1 | 3, 3 => 13/8 | 3, 4 => -13/8 | 3, 5 => -17/8
+  | 4, 0 => -3/4 | 4, 1 => 3/4 | 4, 2 => -1 | 4, 3 => -13/8 | 4, 4 => -27/8 | 4, 5 => 9/8
+  | 5, 0 => 1/4 | 5, 1 => -1/4 | 5, 2 => -1 | 5, 3 => -17/8 | 5, 4 => 9/8 | 5, 5 => -3/8
+  | _, _ => 0
+
+example : IsInvOn (2 + 1 + 1 + 2) (hessAsm 2 1 2 exD2g exDg exMu exJac exDxdy exMole) exK := by
+  unfold IsInvOn; decide +kernel
+
+example : ∀ i, i < 2 → dgmu 2 exDg exMu exDxdy i = ∑ s ∈ range 1, (fun _ => (2:ℚ)) s * exJac s i := by
+  decide +kernel
+
+example : ∀ A, A < 2 → exMole A = exMole A * 1 := by intro A _; ring
+example : exMole 0 + exMole 1 = 1 := by norm_num [exMole]
+example : ∀ i j, i < 2 → j < 2 → exD2g i j = exD2g j i := by
+  intro i j hi hj; interval_cases i <;> interval_cases j <;> rfl
+example : substSum 2 (fun _ => false) exMole = 1 := by norm_num [substSum, sumN, exMole]
+example : usum 2 (fun _ => false) exMole ≠ 0 := by norm_num [usum, sumN, exMole]
+/-- Gibbs–Duhem hypotheses of `darken_ref0` are met by the partial matrix of the example -/
+example : exMole 0 * (-(exK 4 4)) + exMole 1 * (-(exK 5 4)) = 0
+    ∧ exMole 0 * (-(exK 4 5)) + exMole 1 * (-(exK 5 5)) = 0 := by
+  norm_num [exMole, exK]
+
+end examples
 end KawinV.Props.C10
